@@ -58,6 +58,14 @@ Section Sorted.
     fold_right (if reverse then ins_desc else ins_asc) [] l.
 End Sorted.
 
+(* value tokens 24..29 are REFERENCES BACK to one of the two live objects (even: the object in register 0, odd:
+   register 1): 24/25 the object itself, 26/27 an attribute holder whose attribute is the object, 28/29 a list
+   containing it.  A deep copy (copy.deepcopy, pickle round trip) of an object that is reachable from its own
+   values must point at the COPY where the source pointed at itself; a shallow copy keeps the references. *)
+Definition is_ref (v : V) : bool := Nat.leb 24 v && Nat.ltb v 30.
+Definition remap_ref (deep dst : bool) (v : V) : V :=
+  if deep && is_ref v && Bool.eqb (Nat.even v) dst then (if dst then S v else pred v) else v.
+
 Inductive keyfn := KfKey | KfVal | KfLex | KfValPar | KfConst.
 (* key function applied to an item (sorted) *)
 Definition kf_item (f : keyfn) (p : K * V) : nat :=
@@ -106,6 +114,7 @@ Inductive op :=
 | PopLast (k : option K) (d : option V) | PopItem | Clear
 (* this register := a new object *)
 | New (a : option arg) (kw : pairs) | FromKeys (ks : list K) (d : option V) | CopyOther (c : copykind)
+| CopyCyc (c : copykind) (dst : bool)       (* copy of the other object into register dst, references remapped *)
 (* reads *)
 | Items (multi : bool) | Keys (multi : bool) | Values (multi : bool) | Len | Iter | Reversed
 | Get (k : K) (d : option V) | GetList (k : K) (d : option V) | GetItem (k : K) | Contains (k : K)
@@ -221,6 +230,9 @@ Section Step.
         (replace_with base kw, unit_r)
     | FromKeys ks d => (map (fun k => (k, dflt d)) ks, unit_r)
     | CopyOther _ => (other, Ok (OBool true))     (* the copy compares equal to its source *)
+    | CopyCyc c dst =>
+        let deep := match c with CkDeepCopy | CkPickle => true | _ => false end in
+        (map (fun p => (fst p, remap_ref deep dst (snd p))) other, Ok (OBool true))
     | Items multi => (self, Ok (OPairs (if multi then self else items1 self)))
     | Keys multi => (self, Ok (OList (if multi then map fst self else keys1 self)))
     | Values multi => (self, Ok (OList (if multi then map snd self else map snd (items1 self))))
